@@ -552,3 +552,45 @@ def literal_skippers_advance(ctx, s):
                           "after matching `%s` (%d bytes) the cursor moves %d bytes: the rest of the literal is left in the input and "
                           "the document is then rejected" % (L.decode(), len(L), d[0]), b)
     ctx.instances["S-REL.literal-advances"] = n
+
+
+def object_left_at_close_brace(ctx, s, parser):
+    """S-MUSTPASS: the parser succeeds only after it has itself seen the object's closing brace - every path to Ok runs over
+    an edge on which `}` was just recognised (next_object_field answered true, or a byte of the input compared equal to
+    `}`).  A path that hands the rest of the object to a skipper instead never matches the remaining member names against
+    the dispatcher: a repeated member after that point is silently ignored, so acceptance and the value reported depend on
+    member order."""
+    fn = ctx.fn(parser)
+    an = ctx.E.an(fn)
+    ctx.functions.add(fn.path)
+    cfg = an.cfg
+
+    def brace_fact(f):
+        t = f[1] if len(f) > 1 else None
+        if not (isinstance(t, tuple) and t):
+            return False
+        if f[0] == "true" and contains_value(t, lambda y: y[0] == "call" and s.nice(y[1]) == JP + "next_object_field"):
+            return True
+        if f[0] in ("eq", "eqc"):
+            kv = f[2] if len(f) > 2 else None
+            kv = kv[1] if isinstance(kv, tuple) and kv and kv[0] == "const" else kv
+            if kv == 0x7D and contains_value(t, lambda y: (y[0] == "call" and s.nice(y[1]) == JP + "peek") or y[0] == "elem"):
+                return True
+        return False
+    good = []
+    for node in range(cfg.nblocks, cfg.nblocks + len(cfg.edges)):
+        if any(brace_fact(f) for f in s.edge_new_facts(fn, node)):
+            good.append(node)
+    oks = [n for n, k, v in s.return_kinds(fn) if k == "ok"]
+    short = parser.split("::")[-1]
+    ctx.instances["S-MUSTPASS.%s.close-brace edges" % short] = len(good)
+    if not good or not oks:
+        s.add("S-MUSTPASS", fn, "object-left-at-close-brace", short, fn.sp, UNDECIDED,
+              "where the parser recognises the closing brace was not found: not decided")
+        return
+    reach = s.reach(fn, [cfg.entry], avoid=good)
+    bad = [n for n in oks if n in reach]
+    s.add("S-MUSTPASS", fn, "object-left-at-close-brace", short, fn.sp, PROVED if not bad else VIOLATION,
+          "every path to Ok passes the parser's own recognition of the closing brace (%d sites)" % len(good) if not bad else
+          "the parser can succeed without having seen the closing brace itself (the rest of the object is skipped, not "
+          "dispatched): a repeated member after that point is not refused, so the result depends on member order")
